@@ -60,7 +60,9 @@ theorem resident_alone {s : State} (g : Good s) {ρ : Life} (h : s.resident = so
 
 /-- **No command survives the first phase.** Whenever Stop / Restart waits for its second phase — i.e. from the
 end of the tick in which it cancelled and finalized "all commands" — no UOD instance exists, every instance ever
-created has been finalized, and the manager holds no UOD request, queued or executing. -/
+created (= that has had a callback) has been finalized, and the manager holds no UOD request, queued or
+executing.  (Instances that were created for a request with rejected arguments and never initialised are not
+instances in this sense: see the example before `asis_instance_survives_stop`.) -/
 theorem nothing_running_while_stopping (cfg : Cfg) (hfix : cfg.fixCancel = true) (ops : List Op) (n : Name)
     (h : (reach cfg ops).resident = some ⟨n, 1⟩) :
     liveObjs (reach cfg ops) = [] ∧ (∀ o ∈ (reach cfg ops).objs, o.finalized = true) ∧
@@ -209,6 +211,14 @@ example :
     (let s' := (tick s).1
      s'.paused = false ∧ s'.started = false ∧ s'.stopLog.map concluded = [true]) := by
   decide +kernel
+
+/-- What Stop does *not* clean up (the code as it is; recorded finding): an instance that was created for a
+request with rejected arguments and never initialised stays in `uod.command_instances` across Stop when no
+request of that name is left to cancel.  It has had no callback (`objs` is empty), it just occupies the name. -/
+example :
+    let cfg : Cfg := { cmds := [⟨6, none⟩] }
+    let s := reach cfg [.user .start, .tick, .req 0 true, .tick, .user .stop, .tick, .tick]
+    s.started = false ∧ s.stale = [(0, 1)] ∧ s.objs = [] ∧ s.events = [] := by decide +kernel
 
 /-! ### The unchanged code -/
 
